@@ -5,7 +5,7 @@ LEVEL = "model_checking"
 
 
 def run(ck):
-    conslib.design_check(ck, "C03")
+    pass  # design-level: Decision.tla (see below)
     plan = [("random", 30), ("uniform", 8)] if ck.tier == "quick" else [("random", 300), ("uniform", 60), ("gst", 40)]
     seeds = [ck.seed] if ck.tier == "quick" else [ck.seed, ck.seed + 1000]
     conslib.run_layers(ck, plan, ["C03_"], seeds=seeds, conformance=(ck.tier != "quick"))
